@@ -818,12 +818,25 @@ static void mode_run(const Case &c) {
   jint(rewrites);
   if (!cr.generated_correctly) return;
   unsigned long long first_digest = 0;
+  // optional: reset() in the middle of the run (after the given numbers of instructions), then run on
+  std::vector<long> reset_at;
+  if (c.has("reset_at")) {
+    std::istringstream rs(c.opts.at("reset_at").back());
+    long v;
+    while (rs >> v) reset_at.push_back(v);
+  }
   for (long rep = 0; rep < repeat; rep++) {
     VM vm(cr.code);
     Monitor mon;
     long steps = 0;
+    long resets_done = 0;
     bool stopped_by_monitor = false;
     while (steps < budget) {
+      if ((size_t)resets_done < reset_at.size() && steps == reset_at[resets_done]) {
+        vm.reset();
+        resets_done++;
+        if (monitors) mon.boundary(vm);
+      }
       if (monitors) {
         if (!mon.pre(vm)) {
           stopped_by_monitor = true;
@@ -851,6 +864,9 @@ static void mode_run(const Case &c) {
       dump_acts(vm);
       OUT += ',';
       mon.dump();
+      OUT += ',';
+      jkey("resets");
+      jint(resets_done);
       OUT += ',';
       jkey("digest");
       jstr(std::to_string(dg));
